@@ -12,7 +12,7 @@ def scan(pmax, calls, timeout, tier="both"):
          stubs=["src_read: symbolic source with short reads"])
 def it(mode="functional", timeout=300, len0=None, ret=None, tier="both"):
     return dict(name="scan.iter%s%s" % ("" if len0 is None else ".l%dr%d" % (len0, ret), ".safe" if mode == "safety" else ""), src="C16/iter.c", tier=tier,
-                defines=["LHASA_VERIF_SFX_RESUME"] + ([] if len0 is None else ["LEN0=%d" % len0, "RET=%d" % ret]), mode=mode, unwind=38, optional_witnesses=True,
+                defines=["LHASA_VERIF_SFX_RESUME"] + ([] if len0 is None else ["LEN0=%d" % len0, "RET=%d" % ret]), mode=mode, unwind=38, optional_witnesses=True, unwind_is_property=True,
                 unwindset={"skip_sfx.0": 14, "skip_sfx.1": 3, "verif_memmove.0": 26, "verif_memmove.1": 26, "verif_memcmp.0": 14, "verif_memcpy.0": 26, "src_read.0": 26, "is_marker_at.0": 8, "is_marker_at.1": 13},
                 units=["lib/lha_input_stream.c:skip_sfx,file_header_match,empty_leadin,do_read"], timeout=timeout, mem_gb=4,
                 bounds="one loop iteration from an arbitrary loop state: <= 12 carried-over bytes (invariant), arbitrary refill count -1..free space, all 24 window bytes symbolic, skip state 0/1, filepos arbitrary (real 256 KiB limit)",
